@@ -1,5 +1,6 @@
 """C19 — permute_incidence_fixed_sums makes margin-preserving checkerboard swaps only."""
 import itertools
+import os
 import numpy as np
 from .common import gstate, guarded, run_model, rows, ints
 from .prng import RecSHA256, RecRandomState
@@ -140,6 +141,37 @@ def run(ctx):
                 ctx.violation("correspondence", det, site="permute_incidence_fixed_sums", no_input=True); continue
             ops.append(f"incidence|{k}|{rows(m.tolist(), ints)}|{rows([a_[:4] for a_ in atts], ints)}")
             meta.append((det, out.astype(int).tolist()))
+    # ---- text seeds (a documented seed type): the same text gives the same matrix in this process, in a fresh SHA256 of that text,
+    #      and in other interpreter runs (Python salts str hashes per process: PYTHONHASHSEED is varied on purpose)
+    import subprocess, sys, json as _json
+    from cryptorandom.cryptorandom import SHA256 as _SHA
+    from .common import REPO
+    base = np.array([[1, 0, 1, 0, 1], [0, 1, 1, 0, 0], [1, 1, 0, 0, 1], [0, 0, 1, 1, 0]])
+    texts = ["seed-%d" % ctx.rng.randint(0, 999), "abc", "5"]
+    here = {}
+    for t in texts:
+        a = guarded(utils.permute_incidence_fixed_sums, base, 3, t); b = guarded(utils.permute_incidence_fixed_sums, base, 3, t)
+        c = guarded(utils.permute_incidence_fixed_sums, base, 3, _SHA(t))
+        ctx.case(("text-seed", t), True); ctx.count("text-seeds")
+        if a[0] != "ok" or b[0] != "ok" or c[0] != "ok" or not (np.array_equal(a[1], b[1]) and np.array_equal(a[1], c[1])):
+            ctx.violation("oracle", {"call": "permute_incidence_fixed_sums", "k": 3, "seed": t, "matrix": base.tolist(),
+                                     "issue": "a text seed is not reproducible within the process / not equivalent to a fresh SHA256 of that text"}, site="permute_incidence_fixed_sums")
+        here[t] = a[1].tolist() if a[0] == "ok" else None
+    code = ("import sys, json, numpy as np; sys.path.insert(0, %r); from permute import utils; "
+            "m = np.array(%r); print(json.dumps({t: utils.permute_incidence_fixed_sums(m, 3, t).tolist() for t in %r}))" % (REPO, base.tolist(), texts))
+    for hs in (ctx.rng.randint(1, 4000), ctx.rng.randint(4001, 9000)):
+        try:
+            out = subprocess.run([sys.executable, "-c", code], capture_output=True, text=True, timeout=120, env=dict(os.environ, PYTHONHASHSEED=str(hs)))
+            there = _json.loads(out.stdout.strip().splitlines()[-1]) if out.returncode == 0 else None
+        except Exception as ex:  # noqa
+            there = None; out = None
+        ctx.case(("text-seed-other-interpreter", hs), True); ctx.count("other-interpreter-runs")
+        if there is None:
+            ctx.violation("oracle", {"call": "permute_incidence_fixed_sums in a fresh interpreter", "issue": "call failed", "stderr": (out.stderr[-300:] if out is not None else "")}, site="permute_incidence_fixed_sums")
+        elif any(there[t] != here[t] for t in texts):
+            bad = [t for t in texts if there[t] != here[t]]
+            ctx.violation("oracle", {"call": "permute_incidence_fixed_sums", "k": 3, "seed": bad[0], "matrix": base.tolist(), "PYTHONHASHSEED": hs,
+                                     "issue": "the same text seed gives another matrix in another interpreter run", "here": here[bad[0]], "there": there[bad[0]]}, site="permute_incidence_fixed_sums")
     # ---- rejected inputs
     bads = [("1-D", np.array([0, 1, 1])), ("3-D", np.zeros((2, 2, 2))), ("entries 0,1,2", np.array([[0, 1], [2, 0]])),
             ("entries 0,.5,1", np.array([[1, .5, 0], [0, 1, 1]])), ("all zeros", np.zeros((2, 2))), ("all ones", np.ones((2, 3))),
